@@ -23,6 +23,7 @@ type CEnv struct {
 	st        *State
 	old       *State
 	loopEntry *State
+	loopHead  *State // step clauses: the state at the head of the current iteration
 	results   []Val
 	useLocals bool
 	inOld     bool
@@ -178,6 +179,14 @@ func (e *CEnv) eval(x *CExpr) (Val, error) {
 		}
 		n := e.sub()
 		n.st = e.loopEntry
+		return n.eval(x.Args[0])
+	case "prev":
+		// prev(e): e in the state at the head of the current iteration (step clauses only)
+		if e.loopHead == nil {
+			return Val{}, fmt.Errorf("prev() is only available in loop step clauses")
+		}
+		n := e.sub()
+		n.st = e.loopHead
 		return n.eval(x.Args[0])
 	case "old":
 		if e.old == nil {
@@ -1013,6 +1022,25 @@ func (e *CEnv) callExpr(x *CExpr) (Val, error) {
 		}
 		t := c.toFloat(as[0], as[0].Term)
 		return Val{T: tFloat, Term: ite(app(">=", t, "0.0"), t, app("-", t))}, nil
+	case "posInf":
+		// posInf(): math.Inf(1) -- the IEEE value, or (floats real) the same uninterpreted real the model of math.Inf gives
+		if c.floatsIEEE {
+			return Val{T: tFloat, Term: "(_ +oo 11 53)"}, nil
+		}
+		c.smt.declareFun("real_inf", []string{"Int"}, "Real")
+		return Val{T: tFloat, Term: app("real_inf", "1")}, nil
+	case "parseFloatOK", "parseFloatVal":
+		// the assumed contract of strconv.ParseFloat(s, 64): whether it succeeds, and its value, are functions of s
+		as, err := evalArgs()
+		if err != nil {
+			return Val{}, err
+		}
+		c.smt.declareFun("parsefloat_val", []string{"Str"}, c.floatSort())
+		c.smt.declareFun("parsefloat_err", []string{"Str"}, "Int")
+		if x.Name == "parseFloatOK" {
+			return Val{T: tBool, Term: eq(app("parsefloat_err", as[0].Term), "0")}, nil
+		}
+		return Val{T: tFloat, Term: app("parsefloat_val", as[0].Term)}, nil
 	case "hasPrefix":
 		as, err := evalArgs()
 		if err != nil {
@@ -1063,11 +1091,26 @@ func (e *CEnv) callExpr(x *CExpr) (Val, error) {
 		return Val{T: tStr, Term: app("str_join", sel(h, app("sl_base", as[0].Term)), app("sl_off", as[0].Term), app("sl_len", as[0].Term), as[1].Term)}, nil
 	case "local":
 		// local(x): the caller's local variable x, even when a bound name (a callee parameter in a callsite clause) hides it
-		if len(x.Args) != 1 || x.Args[0].Op != "ident" || e.fr == nil {
+		if len(x.Args) != 1 || (x.Args[0].Op != "ident" && x.Args[0].Op != "result") || e.fr == nil {
 			return Val{}, fmt.Errorf("local(name)")
+		}
+		if x.Args[0].Op == "result" { // a local variable that happens to be called result
+			if v, ok := e.localVar("result"); ok {
+				return v, nil
+			}
+			return Val{}, fmt.Errorf("no local variable result")
 		}
 		if v, ok := e.localVar(x.Args[0].Name); ok {
 			return v, nil
+		}
+		// the variable exists in the function but this path never declared it: its value is arbitrary here (a
+		// fresh unconstrained value makes the clause harder to prove, never easier)
+		for _, b := range e.fr.fn.Blocks {
+			for _, in := range b.Instrs {
+				if al, ok := in.(*ssa.Alloc); ok && al.Comment == x.Args[0].Name {
+					return e.fr.havocVal(al.Type().(*types.Pointer).Elem(), "undeclared."+x.Args[0].Name), nil
+				}
+			}
 		}
 		return Val{}, fmt.Errorf("no local variable %s", x.Args[0].Name)
 	case "param":
@@ -1226,7 +1269,9 @@ func (e *CEnv) callExpr(x *CExpr) (Val, error) {
 			return Val{}, err
 		}
 		if c.floatsIEEE {
-			return Val{}, fmt.Errorf("truncf() only with floats real")
+			// the same function the engine uses for int64(x) in IEEE mode (see convert)
+			c.smt.declareFun("f2i_int64", []string{c.floatSort()}, "Int")
+			return Val{T: tInt, Term: app("f2i_int64", as[0].Term)}, nil
 		}
 		t := as[0].Term
 		return Val{T: tInt, Term: fmt.Sprintf("(ite (>= %s 0.0) (to_int %s) (- (to_int (- %s))))", t, t, t)}, nil
@@ -1288,6 +1333,15 @@ func (e *CEnv) callExpr(x *CExpr) (Val, error) {
 		}
 		c.smt.declareFun("time_nanos", []string{c.sortOf(c.eng.timeType())}, "Int")
 		return Val{T: tInt, Term: app("time_nanos", as[0].Term)}, nil
+	case "unixNano":
+		// unixNano(t): what t.UnixNano() returns in the engine's model of time.Time
+		as, err := evalArgs()
+		if err != nil {
+			return Val{}, err
+		}
+		c.smt.declareFun("time_nanos", []string{c.sortOf(c.eng.timeType())}, "Int")
+		c.smt.declareFun("time_unix_epoch", nil, "Int")
+		return Val{T: types.Typ[types.Int64], Term: wrapTo(types.Typ[types.Int64], app("-", app("time_nanos", as[0].Term), "time_unix_epoch"))}, nil
 	case "lastreceived":
 		// lastreceived(ch): the value most recently received from ch by this function
 		as, err := evalArgs()
@@ -1474,7 +1528,7 @@ func (e *CEnv) declareSpecFunc(f *SpecFunc) (types.Type, error) {
 // addAxiomsMentioning adds the library axioms that mention a spec function once it is used.
 func (c *FnCtx) addAxiomsMentioning(fname string) {
 	for _, ax := range c.eng.lib.Axioms {
-		if ax.IsLemma || c.axiomsAdded[ax.Name] {
+		if ax.IsLemma || c.axiomsAdded[ax.Name] || c.excludedAxioms[ax.Name] {
 			continue
 		}
 		if !exprMentions(ax.Body, fname) {
